@@ -39,6 +39,18 @@ Theorem lower_logical_assign_dot_equiv_partial :
 Proof. exact lowerLogicalAsg_dot_captured. Qed.
 Print Assumptions lower_logical_assign_dot_equiv_partial.
 
+(* t[k] ||= v / t[k] &&= v with object and key captured:
+   "(_n = t)[_n1 = k] || (_n[_n1] = v)": t, k, v evaluated once, in this order *)
+Theorem lower_logical_assign_index_equiv_partial :
+  forall (S : Type) (w : world S) (th : val) F op t k v n,
+    f_logasg F = true -> is_inline_value t = false -> is_inline_value k = false ->
+    ~ In n (tmps k) -> ~ In n (tmps v) -> ~ In (n + 1) (tmps v) ->
+    forall r, lowerLogicalAsg F op (EIndex t k OcNone) v n = Some r ->
+    (op = BOr -> obs_eq S w th (fst r) (EOpAsg AOr (EIndex t k OcNone) v)) /\
+    (op = BAnd -> obs_eq S w th (fst r) (EOpAsg AAnd (EIndex t k OcNone) v)).
+Proof. exact lowerLogicalAsg_index_captured. Qed.
+Print Assumptions lower_logical_assign_index_equiv_partial.
+
 (* x ||= v, x &&= v on an identifier: no side condition at all *)
 Theorem lower_logical_assign_id_equiv :
   forall (S : Type) (w : world S) (th : val) F x v n r,
